@@ -60,7 +60,9 @@ pub fn format_element(e: &Element, indent: usize) -> String {
 pub fn format_attrs(attrs: &[Attribute]) -> String {
     let mut result = String::new();
     for attr in attrs {
-        result += format!(" {}='{}'", attr.name().local_part(), &handle_special_chars(attr.value())).as_str();
+        // (a line break or tab in an attribute value comes back as a blank unless it is written as a character reference)
+        result += format!(" {}='{}'", attr.name().local_part(),
+                          &handle_special_chars(attr.value()).replace('\n', "&#xA;").replace('\r', "&#xD;").replace('\t', "&#x9;")).as_str();
     }
     result
 }
